@@ -15,6 +15,8 @@ def replay_history(prop, path, classes=None, times=3, hook=None):
     common.ensure_built()
     mod = importlib.import_module('rvlib.checks.%s' % prop.lower())
     ops = [tuple(o) for o in rp['ops']] if rp.get('ops') else None
+    if isinstance(rp['seed'], list):
+        rp['seed'], ops = tuple(rp['seed']), None
     bad = 0
     for i in range(times):
         res = mod.CASE(rp['seed'], ops=ops, hook=hook)
